@@ -33,7 +33,10 @@ U = pyvc.U
 ROW = pyvc.rec_type(user='U', n_ready_jobs='int', ready_cores_mcpu='int', n_running_jobs='int', running_cores_mcpu='int', allocated_cores_mcpu='int')
 
 
-def fair_share():
+def fair_share(keys=None):
+    """keys: {sorted-set local: its real key lambda} (sorted_set_keys); the s[0] model orders by the REAL key function"""
+    keys = keys or {}
+
     def setup(eng, st):
         RUN, READY, ISUSER = eng.uf('RUN', ['U'], 'int'), eng.uf('READY', ['U'], 'int'), eng.uf('ISUSER', ['U'], 'bool')
         R = st.env['RECORDS']
@@ -57,22 +60,36 @@ def fair_share():
         st.env['alloc_view'] = pyvc.SFunc('alloc_view', alloc_view)
 
     def sorted_set(eng, st, args, kw, node):
+        if args or set(kw) != {'key'}:
+            raise core.Undecided('SortedSet built from an iterable / without a key function')
         return SMap(z3.K(U, z3.BoolVal(False)), z3.K(U, z3.BoolVal(True)), z3.IntVal(0), 'U', 'bool')
 
     def fetchall(eng, st, args, kw, node):
         return st.env['RECORDS']
 
-    def least(keymap):
+    def least(setname, keymap):
         def model(eng, st, args, kw, node):
             s, idx = args
             if not (isinstance(idx, int) and idx == 0):
                 raise core.Undecided('SortedSet indexed by other than 0')
             eng.oblige(st, 'safety/first-of-a-non-empty-sorted-set@L%d' % node.lineno, s.size > 0, kind='safety')
-            km = st.env[keymap]
             u, v = z3.Const(pyvc.fresh_name('least_user'), U), z3.Const(pyvc.fresh_name('any_user'), U)
+
+            def lookup(name):
+                m = st.env.get(name)
+                if not isinstance(m, SMap):
+                    raise core.Undecided('sorted-set key reads %s, which is not a dictionary of the call' % name)
+                return m.val
+
+            # the key function is the lambda the real code passes (closures bind late: the current dictionaries); only when the
+            # constructor is not of the understood form (obligation sorted-sets/each-set-is-built-...) the documented dictionary
+            if setname in keys:
+                ku, kv = key_term(keys[setname], u, lookup), key_term(keys[setname], v, lookup)
+            else:
+                ku, kv = z3.Select(st.env[keymap].val, u), z3.Select(st.env[keymap].val, v)
             # assumed contract of SortedSet.__getitem__(0): a member whose key is least
             st.assume(z3.Select(s.has, u))
-            st.assume(z3.ForAll([v], z3.Implies(z3.Select(s.has, v), z3.Select(km.val, u) <= z3.Select(km.val, v))))
+            st.assume(z3.ForAll([v], z3.Implies(z3.Select(s.has, v), ku <= kv)))
             return u
         return model
 
@@ -122,7 +139,7 @@ def fair_share():
         types={'free_cores_mcpu': 'int', 'user_running_cores_mcpu': 'Map[U, int]', 'user_total_cores_mcpu': 'Map[U, int]', 'result': ('map', 'U', ROW), 'record': ROW, 'mark': 'int',
                'lowest_running': 'int', 'lowest_total': 'int'},
         extra_inputs={'RECORDS': ('list', ROW)}, setup=setup,
-        calls={'sortedcontainers.SortedSet': sorted_set, 'self.db.execute_and_fetchall': fetchall, 'subscript:%s' % P: least('user_running_cores_mcpu'), 'subscript:%s' % A: least('user_total_cores_mcpu'),
+        calls={'sortedcontainers.SortedSet': sorted_set, 'self.db.execute_and_fetchall': fetchall, 'subscript:%s' % P: least(P, 'user_running_cores_mcpu'), 'subscript:%s' % A: least(A, 'user_total_cores_mcpu'),
                'sorted': lambda eng, st, args, kw, node: args[0], '.items': lambda eng, st, args, kw, node: args[0], 'dict': lambda eng, st, args, kw, node: args[0]},
         ghosts=ghosts + [
             Ghost('re:^for user in allocating_users_by_total_cores', 'TOTAL_BEFORE = TOTAL\nPSR = 0\nOLD_ALLOC = alloc_view(result)\nghost_assume(implies(len(allocating_users_by_total_cores) == 0, SUMR == 0), "SUMR is the sum of r_u over the allocating set (updated with every add / remove): an empty set sums to zero")', where='before'),
@@ -143,13 +160,463 @@ def fair_share():
     )
 
 
+# ------------------------------------------------------------------------------------------------------------------
+# (wave 4) what the contract above ASSUMED about its surroundings, now stated as obligations on the real text:
+#   * the embedded query (vc/sqlparse.py): one row per user, every column the code reads is the integer SUM over ALL rows
+#     of that user in this pool, users are left out only on their aggregated sums and only when they have no ready demand;
+#   * the key functions of the two SortedSets (the real lambdas) order the sets the way the loop invariants need
+#     (pending: by running cores, allocating: by total cores = running + ready), and the s[0] model uses the REAL lambda;
+#   * every container the computation writes is created by the call itself (nothing shared between the overlapping calls of the
+#     scheduling loop and the autoscaler: the coroutine suspends at the `async for`).
+
+TABLE = 'user_inst_coll_resources'
+MUTATORS = {'add', 'remove', 'discard', 'clear', 'update', 'append', 'extend', 'pop', 'popitem', 'insert', 'setdefault', 'sort', 'reverse', 'appendleft', 'popleft', 'difference_update', 'intersection_update',
+            'symmetric_difference_update', '__setitem__', '__delitem__'}
+FRESH_CTORS = {'dict', 'list', 'set', 'sorted', 'defaultdict', 'collections.defaultdict', 'sortedcontainers.SortedSet', 'SortedSet', 'sortedcontainers.SortedList', 'sortedcontainers.SortedDict', 'frozenset', 'tuple'}
+
+
+_NATIVE = {}
+
+
+def _native(name):
+    """result of contracts/native/<name> on the tree under test (run once per check)"""
+    if name not in _NATIVE:
+        _NATIVE[name] = core.run_native(open(os.path.join(os.path.dirname(__file__), 'native', name)).read(), {}, timeout=300)
+    return _NATIVE[name]
+
+
+def _add(ctx, o, script):
+    """add an obligation of the surroundings; when it fails, the native scenario host looks for a failing input on the real code
+    (a replayed input only ever strengthens the report: the verdict is the obligation's)"""
+    if o.backend == 'syntactic':
+        if o.status == 'failed':
+            r = _native(script)
+            if isinstance(r, dict) and r.get('confirmed'):
+                o.info['__replay__'] = r
+                o.detail = '%s | replayed on the real code: %s; input %s' % (o.detail, r.get('what'), r.get('input'))
+        ctx.add(o)
+    else:
+        ctx.add(o, replay=lambda model, obl: _native(script))
+
+
+def fn_ast():
+    tree = pyast.parse(core.read_repo(POOL))
+    for n in tree.body:
+        if isinstance(n, pyast.ClassDef) and n.name == 'PoolScheduler':
+            for m in n.body:
+                if isinstance(m, (pyast.AsyncFunctionDef, pyast.FunctionDef)) and m.name == '_compute_fair_share':
+                    return m
+    raise core.Undecided('PoolScheduler._compute_fair_share not found in %s' % POOL)
+
+
+# ---- sorted-set keys -------------------------------------------------------------------------------------------------
+
+def sorted_set_keys(fn):
+    """{local name: the lambda node passed as key=} for every `x = ...SortedSet(key=lambda ...)` of the function"""
+    out, bad = {}, []
+    for n in pyast.walk(fn):
+        if isinstance(n, (pyast.Assign, pyast.AnnAssign)) and isinstance(n.value, pyast.Call) and pyast.unparse(n.value.func).endswith('SortedSet'):
+            tg = n.targets if isinstance(n, pyast.Assign) else [n.target]
+            kws = {k.arg: k.value for k in n.value.keywords}
+            if len(tg) != 1 or not isinstance(tg[0], pyast.Name) or n.value.args or set(kws) != {'key'} or not isinstance(kws['key'], pyast.Lambda) or tg[0].id in out:
+                bad.append('L%d: %s' % (n.lineno, pyast.unparse(n)[:120]))
+                continue
+            out[tg[0].id] = kws['key']
+    return out, bad
+
+
+def key_term(lam, u, lookup):
+    """the value of the key lambda at user `u` as an integer term; `lookup(dict name)` gives the integer array of a dictionary
+    (closures bind late: the CURRENT dictionaries).  Anything but integer arithmetic over <dict>[<param>] stays undecided."""
+    a = lam.args
+    if len(a.args) != 1 or a.posonlyargs or a.kwonlyargs or a.vararg or a.kwarg or a.defaults:
+        raise core.Undecided('sorted-set key is not a one-argument lambda: %s' % pyast.unparse(lam))
+    par = a.args[0].arg
+
+    def tr(e):
+        if isinstance(e, pyast.Constant) and isinstance(e.value, int) and not isinstance(e.value, bool):
+            return z3.IntVal(e.value)
+        if isinstance(e, pyast.Subscript) and isinstance(e.value, pyast.Name) and isinstance(e.slice, pyast.Name) and e.slice.id == par and e.value.id != par:
+            return z3.Select(lookup(e.value.id), u)
+        if isinstance(e, pyast.BinOp) and isinstance(e.op, (pyast.Add, pyast.Sub, pyast.Mult)):
+            l, r = tr(e.left), tr(e.right)
+            return l + r if isinstance(e.op, pyast.Add) else l - r if isinstance(e.op, pyast.Sub) else l * r
+        if isinstance(e, pyast.UnaryOp) and isinstance(e.op, (pyast.USub, pyast.UAdd)):
+            return -tr(e.operand) if isinstance(e.op, pyast.USub) else tr(e.operand)
+        raise core.Undecided('sorted-set key outside integer arithmetic over the per-user dictionaries: %s' % pyast.unparse(lam))
+
+    return tr(lam.body)
+
+
+def sorted_set_obligations(ctx, fn):
+    keys, bad = sorted_set_keys(fn)
+    want = {'pending_users_by_running_cores': ('running-cores', lambda R, T, x: z3.Select(R, x)), 'allocating_users_by_total_cores': ('total-cores', lambda R, T, x: z3.Select(T, x))}
+    ctx.add(core.decided('C11/sorted-sets/each-set-is-built-empty-once-with-a-key-function', not bad and set(keys) == set(want), 'found %s; not understood: %s' % (sorted(keys), bad), kind='scan'))
+    R, T = z3.Array('c11_running', U, z3.IntSort()), z3.Array('c11_total', U, z3.IntSort())
+    u, v = z3.Const('c11_u', U), z3.Const('c11_v', U)
+
+    def lookup(name):
+        if name == 'user_running_cores_mcpu':
+            return R
+        if name == 'user_total_cores_mcpu':
+            return T
+        raise core.Undecided('sorted-set key reads %s, which is not one of the two per-user dictionaries' % name)
+
+    for name, (what, spec) in want.items():
+        if name not in keys:
+            continue
+        ku, kv = key_term(keys[name], u, lookup), key_term(keys[name], v, lookup)
+        # for ALL contents of the two dictionaries and all users u, v: whatever the key function puts first is first in the
+        # order the invariants speak about (running cores r_u for the pending set, total cores t_u for the allocating set)
+        ctx.add(core.valid('C11/sorted-sets/%s-is-ordered-by-%s' % (name, what), [], z3.Implies(ku <= kv, spec(R, T, u) <= spec(R, T, v)), kind='vc', source=pyast.unparse(keys[name])))
+    if 'allocating_users_by_total_cores' in keys:
+        ku, kv = key_term(keys['allocating_users_by_total_cores'], u, lookup), key_term(keys['allocating_users_by_total_cores'], v, lookup)
+        ctx.add(core.satisfiable('C11/sorted-sets/canary/allocating-set-ordered-by-running-cores', [ku <= kv, z3.Not(z3.Select(R, u) <= z3.Select(R, v))], kind='canary'))
+    return keys
+
+
+# ---- working state ---------------------------------------------------------------------------------------------------
+
+def _root(e):
+    """(root name, went through an attribute?) of a subscript / attribute chain"""
+    attr = False
+    while True:
+        if isinstance(e, pyast.Subscript):
+            e = e.value
+        elif isinstance(e, pyast.Attribute):
+            e, attr = e.value, True
+        elif isinstance(e, pyast.Call) and isinstance(e.func, pyast.Attribute) and e.func.attr in ('items', 'values', 'keys', 'get'):
+            e = e.func.value
+        else:
+            break
+    return (e.id if isinstance(e, pyast.Name) else None), attr, e
+
+
+def working_state_obligations(ctx, fn):
+    """every object the computation writes to (item stores, deletions, mutating method calls - in the body, its local functions
+    and lambdas) hangs off a local name of this call that was bound to a freshly created object; nothing is stored on `self`"""
+    params = {a.arg for a in fn.args.posonlyargs + fn.args.args + fn.args.kwonlyargs} | ({fn.args.vararg.arg} if fn.args.vararg else set()) | ({fn.args.kwarg.arg} if fn.args.kwarg else set())
+    inner_params = set()
+    for n in pyast.walk(fn):
+        if n is not fn and isinstance(n, (pyast.FunctionDef, pyast.AsyncFunctionDef, pyast.Lambda)):
+            a = n.args
+            inner_params |= {x.arg for x in a.posonlyargs + a.args + a.kwonlyargs}
+    bindings = {}  # local name -> [(kind, value node, line)]
+
+    def bind(t, kind, val, line):
+        if isinstance(t, pyast.Name):
+            bindings.setdefault(t.id, []).append((kind, val, line))
+        elif isinstance(t, (pyast.Tuple, pyast.List)):
+            for x in t.elts:
+                bind(x, 'unpack', val, line)
+
+    writes, on_self, scope = [], [], []
+    for n in pyast.walk(fn):
+        if isinstance(n, pyast.Assign):
+            for t in n.targets:
+                bind(t, 'assign', n.value, n.lineno)
+        elif isinstance(n, pyast.AnnAssign) and n.value is not None:
+            bind(n.target, 'assign', n.value, n.lineno)
+        elif isinstance(n, pyast.AugAssign):
+            bind(n.target, 'aug', n.value, n.lineno)
+        elif isinstance(n, (pyast.For, pyast.AsyncFor)):
+            bind(n.target, 'iter', n.iter, n.lineno)
+        elif isinstance(n, (pyast.With, pyast.AsyncWith)):
+            for it in n.items:
+                if it.optional_vars is not None:
+                    bind(it.optional_vars, 'with', it.context_expr, n.lineno)
+        elif isinstance(n, pyast.NamedExpr):
+            bind(n.target, 'assign', n.value, n.lineno)
+        elif isinstance(n, (pyast.Global, pyast.Nonlocal)):
+            scope.append('L%d: %s' % (n.lineno, pyast.unparse(n)))
+        tgs = []
+        if isinstance(n, pyast.Assign):
+            tgs = list(n.targets)
+        elif isinstance(n, (pyast.AugAssign, pyast.AnnAssign)):
+            tgs = [n.target]
+        elif isinstance(n, pyast.Delete):
+            tgs = list(n.targets)
+        elif isinstance(n, pyast.Call) and isinstance(n.func, pyast.Attribute) and n.func.attr in MUTATORS:
+            tgs = [pyast.Subscript(value=n.func.value, slice=pyast.Constant(value=0), ctx=pyast.Store())]
+        flat = []
+        for t in tgs:
+            flat += list(t.elts) if isinstance(t, (pyast.Tuple, pyast.List)) else [t]
+        for t in flat:
+            if isinstance(t, (pyast.Subscript, pyast.Attribute)):
+                root, attr, base = _root(t)
+                line = getattr(n, 'lineno', 0)
+                if root == 'self':
+                    on_self.append('L%d: %s' % (line, pyast.unparse(n)[:100]))
+                else:
+                    writes.append((root, attr, line, pyast.unparse(n)[:100]))
+
+    memo = {}
+
+    def fresh_value(v, kind):
+        """does this expression create an object owned by the call?"""
+        if kind == 'aug' or kind == 'unpack' or kind == 'with':
+            return False
+        if kind == 'iter':
+            r, attr, base = _root(v)
+            return r is not None and not attr and fresh_name(r)
+        if isinstance(v, (pyast.Dict, pyast.List, pyast.Set, pyast.ListComp, pyast.DictComp, pyast.SetComp, pyast.Tuple)):
+            return True
+        if isinstance(v, pyast.Call):
+            f = pyast.unparse(v.func)
+            if f in FRESH_CTORS:
+                return True
+            if f.startswith('self.db.'):  # the cursor / rows of this call's own query
+                return True
+            return False
+        if isinstance(v, pyast.Name):
+            return fresh_name(v.id)
+        if isinstance(v, pyast.Subscript):  # an element of an own container
+            r, attr, base = _root(v)
+            return r is not None and not attr and fresh_name(r)
+        return False
+
+    def fresh_name(name):
+        if name in memo:
+            return memo[name]
+        memo[name] = False  # cycles: not fresh
+        ok = name not in params and name not in inner_params and name in bindings and all(fresh_value(v, k) for k, v, _ in bindings[name])
+        memo[name] = ok
+        return ok
+
+    notfresh = []
+    for root, attr, line, txt in writes:
+        if root is None:
+            notfresh.append('L%d: %s (written object is not reached from a local name)' % (line, txt))
+        elif root in inner_params and root not in bindings and root not in params:
+            raise core.Undecided('a local function of _compute_fair_share writes through its parameter %s (L%d): ownership not decidable on the text' % (root, line))
+        elif attr or not fresh_name(root):
+            why = 'a parameter' if root in params else 'reached through an attribute' if attr else 'bound at %s' % ', '.join('L%d to `%s`' % (ln, pyast.unparse(v)[:60]) for k, v, ln in bindings.get(root, [])) if root in bindings else 'not a local of this call'
+            notfresh.append('L%d: %s writes to %s, which is %s' % (line, txt, root, why))
+    _add(ctx, core.decided('C11/working-state/every-container-the-computation-writes-is-created-by-this-call', not notfresh and not scope and bool(writes), '; '.join(notfresh + scope) or 'written: %s' % sorted({w[0] for w in writes}), kind='frame'), 'c11_overlap_replay.py')
+    ctx.add(core.decided('C11/working-state/nothing-is-stored-on-the-scheduler-object', not on_self, '; '.join(on_self), kind='frame'))
+    seen = {w[0] for w in writes}
+    sets = set(sorted_set_keys(fn)[0])
+    ctx.add(core.decided('C11/working-state/vacuity/the-scan-sees-the-writes-to-both-sorted-sets-and-the-tables', sets <= seen and len(seen) > len(sets), 'written: %s' % sorted(map(str, seen)), kind='vacuity'))
+
+
+# ---- the embedded query ------------------------------------------------------------------------------------------------
+
+def _count_params(e):
+    import dataclasses
+    from vc import sqlast
+    if isinstance(e, sqlast.Param):
+        return 1
+    n = 0
+    if dataclasses.is_dataclass(e):
+        for f in dataclasses.fields(e):
+            v = getattr(e, f.name)
+            for x in (v if isinstance(v, (list, tuple)) else [v]):
+                n += _count_params(x)
+    elif isinstance(e, (list, tuple)):
+        for x in e:
+            n += _count_params(x)
+    return n
+
+
+def _summed_column(e, need_int):
+    """the column c if e is [CAST(] [COALESCE(] SUM(c) [, 0)] [AS SIGNED)], else None; need_int: the CAST ... AS SIGNED is required
+    (SUM of an integer column is a DECIMAL; the code does float arithmetic and int() on the value)"""
+    from vc import sqlast
+    is_int = False
+    if isinstance(e, sqlast.Cast) and e.type.base.upper() == 'SIGNED' and not e.type.args:
+        e, is_int = e.expr, True
+    if isinstance(e, sqlast.Func) and e.name.upper() == 'COALESCE' and len(e.args) == 2 and isinstance(e.args[1], sqlast.Lit) and e.args[1].value == 0 and e.args[1].kind == 'int':
+        e = e.args[0]
+    if isinstance(e, sqlast.Func) and e.name.upper() == 'SUM' and not e.distinct and not e.star and e.over is None and len(e.args) == 1 and isinstance(e.args[0], sqlast.Name) and (is_int or not need_int):
+        return e.args[0].parts[-1].lower()
+    return None
+
+
+def _sql_term(e, col, param, leaf=None):
+    """an SQL scalar expression over ONE row as a z3 term: ('int' | 'bool' | 'str', term).  col(name) / param(index) give the
+    terms of columns and placeholders; leaf(e), tried first on every subexpression, may supply a term (aggregates in HAVING).
+    All columns involved are NOT NULL (obligation), so the logic is two-valued."""
+    from vc import sqlast
+    if leaf is not None:
+        r = leaf(e)
+        if r is not None:
+            return r
+    if isinstance(e, sqlast.Name):
+        return col(e.parts[-1].lower())
+    if isinstance(e, sqlast.Param):
+        return param(e.index)
+    if isinstance(e, sqlast.Lit) and e.kind == 'int':
+        return 'int', z3.IntVal(e.value)
+    if isinstance(e, sqlast.Lit) and e.kind == 'str':
+        return 'str', z3.StringVal(e.value)
+    if isinstance(e, sqlast.UnOp) and e.op.upper() == 'NOT':
+        k, t = _sql_term(e.operand, col, param, leaf)
+        if k == 'bool':
+            return 'bool', z3.Not(t)
+    if isinstance(e, sqlast.UnOp) and e.op == '-':
+        k, t = _sql_term(e.operand, col, param, leaf)
+        if k == 'int':
+            return 'int', -t
+    if isinstance(e, sqlast.BinOp):
+        op = e.op.upper()
+        (kl, l), (kr, r) = _sql_term(e.left, col, param, leaf), _sql_term(e.right, col, param, leaf)
+        if op in ('AND', 'OR', '&&', '||') and kl == kr == 'bool':
+            return 'bool', (z3.And if op in ('AND', '&&') else z3.Or)(l, r)
+        if op in ('+', '-', '*') and kl == kr == 'int':
+            return 'int', l + r if op == '+' else l - r if op == '-' else l * r
+        if op in ('=', '<>', '!=') and kl == kr and kl in ('int', 'str'):
+            return 'bool', l == r if op == '=' else l != r
+        if op in ('<', '<=', '>', '>=') and kl == kr == 'int':
+            return 'bool', {'<': l < r, '<=': l <= r, '>': l > r, '>=': l >= r}[op]
+    raise core.Undecided('fair-share query: expression outside the modelled subset: %s' % (e,))
+
+
+def query_obligations(ctx, fn):
+    from vc import sqlast, sqlparse
+    calls = [n for n in pyast.walk(fn) if isinstance(n, pyast.Call) and pyast.unparse(n.func).startswith('self.db.')]
+    if len(calls) != 1 or not calls[0].args or not (isinstance(calls[0].args[0], pyast.Constant) and isinstance(calls[0].args[0].value, str)):
+        raise core.Undecided('_compute_fair_share does not issue exactly one query with a literal text: %s' % [pyast.unparse(c)[:80] for c in calls])
+    call = calls[0]
+    try:
+        stn = sqlparse.parse_statement(call.args[0].value, POOL, call.args[0].lineno)
+    except sqlparse.SqlUnsupported as e:
+        raise core.Undecided('fair-share query not parsed: %s' % e)
+    sel = getattr(stn, 'select', None)
+    if not isinstance(sel, sqlast.Select):
+        raise core.Undecided('fair-share query is not a plain SELECT: %s' % type(sel).__name__)
+    tables = sqlparse.effective_tables(core.REPO)
+    tab = tables.get(TABLE)
+    if tab is None:
+        raise core.Undecided('table %s not found in the replayed migrations' % TABLE)
+    P = 'C11/query/'
+    # (1) where the rows come from: the per-user, per-pool, per-token resource rows, of THIS pool
+    nparams = _count_params(stn)
+    qargs = call.args[1] if len(call.args) > 1 else None
+    args_ok = isinstance(qargs, (pyast.Tuple, pyast.List)) and [pyast.unparse(x) for x in qargs.elts] == ['self.pool.name'] and nparams == 1
+    from_ok = isinstance(sel.from_, sqlast.TableRef) and sel.from_.name.lower() == TABLE and not sel.distinct
+    _add(ctx, core.decided(P + 'reads-the-resource-rows-with-the-name-of-this-pool-as-the-only-argument', bool(args_ok and from_ok), 'FROM %s; arguments %s; %d placeholder(s)' % (sel.from_, pyast.unparse(qargs) if qargs is not None else None, nparams), kind='scan'), 'c11_query_replay.py')
+    if not from_ok:
+        raise core.Undecided('fair-share query reads from %s: not the single table the obligations are stated over' % (sel.from_,))
+    ints = {c for c, d in tab.columns.items() if d.type.upper() in ('INT', 'BIGINT', 'SMALLINT', 'TINYINT', 'MEDIUMINT')}
+    strs = {c for c, d in tab.columns.items() if d.type.upper() in ('VARCHAR', 'CHAR', 'TEXT')}
+    used = []
+
+    def col(name):
+        used.append(name)
+        if name in ints:
+            return 'int', z3.Int('row.' + name)
+        if name in strs:
+            return 'str', z3.String('row.' + name)
+        raise core.Undecided('fair-share query: %s is not an integer / string column of %s' % (name, TABLE))
+
+    def param(i):
+        if i != 0:
+            raise core.Undecided('fair-share query: more than one placeholder')
+        return 'str', z3.String('arg.pool_name')
+
+    pool_row = z3.String('row.inst_coll') == z3.String('arg.pool_name')
+    W = z3.BoolVal(True)
+    if sel.where is not None:
+        k, W = _sql_term(sel.where, col, param)
+        if k != 'bool':
+            raise core.Undecided('fair-share query: WHERE is not a condition')
+    nullable = sorted(c for c in set(used) | {'user', 'inst_coll'} if tab.columns[c].nullable)
+    _add(ctx, core.decided(P + 'columns-in-the-row-filter-are-not-null', not nullable, 'nullable: %s' % nullable, kind='scan'), 'c11_query_replay.py')
+    # (2) the row filter: exactly the rows of this pool - in particular EVERY token row of a user (a single token row holds
+    # deltas and may be negative or zero; only the sum over the tokens is the user's figure), and no row of another pool
+    _add(ctx, core.valid(P + 'row-filter-keeps-every-row-of-the-user-in-this-pool-so-each-sum-ranges-over-all-of-them', [pool_row], W, kind='vc', where=str(sel.where)), 'c11_query_replay.py')
+    _add(ctx, core.valid(P + 'row-filter-keeps-only-rows-of-this-pool', [W], pool_row, kind='vc', where=str(sel.where)), 'c11_query_replay.py')
+    ctx.add(core.satisfiable(P + 'vacuity/some-row-passes-the-row-filter', [W], kind='vacuity'))
+    if sel.where is not None:
+        ctx.add(core.satisfiable(P + 'canary/row-filter-lets-every-row-pass', [z3.Not(W)], kind='canary'))
+    # (3) one row per user
+    gk = [g.parts[-1].lower() if isinstance(g, sqlast.Name) else None for g in sel.group_by]
+    one_row = 'user' in gk and all(g in ('user', 'inst_coll') for g in gk) and sel.limit is None and sel.offset is None
+    _add(ctx, core.decided(P + 'one-row-per-user-and-no-user-cut-off', bool(one_row), 'GROUP BY %s LIMIT %s' % ([str(g) for g in sel.group_by], sel.limit), kind='scan'), 'c11_query_replay.py')
+    # (4) the columns
+    read = sorted({n.slice.value for n in pyast.walk(fn) if isinstance(n, pyast.Subscript) and isinstance(n.ctx, pyast.Load) and isinstance(n.value, pyast.Name) and n.value.id == 'record'
+                   and isinstance(n.slice, pyast.Constant) and isinstance(n.slice.value, str)} | {'user', 'running_cores_mcpu', 'ready_cores_mcpu'})
+    cols, dup = {}, []
+    for c in sel.columns:
+        nm = (c.alias or (c.expr.parts[-1] if isinstance(c.expr, sqlast.Name) else None))
+        if nm is None or nm.lower() in cols:
+            dup.append(str(c))
+            continue
+        cols[nm.lower()] = c.expr
+    wrong = []
+    for k in read:
+        e = cols.get(k)
+        if e is None:
+            wrong.append('%s: not selected' % k)
+        elif k == 'user':
+            if not (isinstance(e, sqlast.Name) and e.parts[-1].lower() == 'user'):
+                wrong.append('user: %s' % e)
+        elif _summed_column(e, True) != k or k not in ints:
+            wrong.append('%s: %s' % (k, e))
+    _add(ctx, core.decided(P + 'each-column-the-code-reads-is-the-integer-sum-of-that-column-over-the-user-s-rows', not wrong and not dup, '; '.join(wrong + dup) or 'read: %s' % read, kind='scan'), 'c11_query_replay.py')
+    misnamed = ['%s: %s' % (k, e) for k, e in cols.items() if k in ints and k not in read and _summed_column(e, False) != k]
+    _add(ctx, core.decided(P + 'every-other-column-named-after-a-counter-is-the-sum-of-that-counter', not misnamed, '; '.join(misnamed), kind='scan'), 'c11_query_replay.py')
+    # (5) which users are left out: decided on the aggregated sums only, and only users without ready demand
+    agg = {k: _summed_column(e, False) for k, e in cols.items() if k != 'user'}
+    H = z3.BoolVal(True)
+    hv = {}
+
+    def hcol(name):
+        raise core.CheckerBug('HAVING names are handled by hterm')
+
+    bad_h = []
+    if sel.having is not None:
+        from vc import sqlast as _a
+
+        def hterm(e):
+            # a bare name in HAVING is the select alias (MySQL resolves HAVING names against the select list first); SUM(c) is the same sum
+            c = _summed_column(e, False)
+            if c is not None:
+                return 'int', hv.setdefault(c, z3.Int('sum.' + c))
+            if isinstance(e, _a.Name):
+                nm = e.parts[-1].lower()
+                if agg.get(nm) is not None:
+                    return 'int', hv.setdefault(agg[nm], z3.Int('sum.' + agg[nm]))
+                bad_h.append('%s is not one of the aggregated columns' % nm)
+                return 'int', z3.Int('raw.' + nm)
+            if isinstance(e, _a.Func):
+                raise core.Undecided('fair-share query: HAVING uses %s' % e)
+            return None
+
+        k, H = _sql_term(sel.having, hcol, param, hterm)
+        if k != 'bool':
+            raise core.Undecided('fair-share query: HAVING is not a condition')
+    _add(ctx, core.decided(P + 'users-are-filtered-on-their-aggregated-sums-only', not bad_h, '; '.join(bad_h) or 'HAVING %s' % sel.having, kind='scan'), 'c11_query_replay.py')
+    S = lambda c: hv.setdefault(c, z3.Int('sum.' + c))  # noqa: E731
+    # what the counters are (C01 / C06): numbers of jobs and their cores; no ready jobs, no ready cores
+    facts = [S('n_ready_jobs') >= 0, S('n_running_jobs') >= 0, S('ready_cores_mcpu') >= 0, S('running_cores_mcpu') >= 0, z3.Implies(S('n_ready_jobs') == 0, S('ready_cores_mcpu') == 0)]
+    _add(ctx, core.valid(P + 'a-user-left-out-of-the-result-has-no-ready-demand', facts + [z3.Not(H)], S('ready_cores_mcpu') == 0, kind='vc', having=str(sel.having)), 'c11_query_replay.py')
+    ctx.add(core.satisfiable(P + 'vacuity/some-user-passes-the-filter-on-the-sums', facts + [H], kind='vacuity'))
+    if sel.having is not None:
+        ctx.add(core.satisfiable(P + 'canary/no-user-is-ever-left-out', facts + [z3.Not(H)], kind='canary'))
+    ctx.assume('user_inst_coll_resources: per user and pool the sums over the token rows are the numbers of ready / running jobs and their cores (C01, C06: non-negative; no ready jobs means no ready cores); MySQL resolves a bare name in HAVING against the select list first')
+
+
 def native_witness(ctx):
     script = open(os.path.join(os.path.dirname(__file__), 'native', 'c11_replay.py')).read()
-    return core.run_native(script, {'size': 'small'}, timeout=600)
+    r = core.run_native(script, {'size': 'small'}, timeout=600)
+    if isinstance(r, dict) and r.get('confirmed'):
+        return r
+    # (wave 4) the surroundings: the query on token rows with negative deltas, two overlapping computations on one scheduler
+    for name in ('c11_query_replay.py', 'c11_overlap_replay.py'):
+        q = _native(name)
+        if isinstance(q, dict) and q.get('confirmed'):
+            return q
+    return r
 
 
 def build(ctx):
-    c = fair_share()
+    # decided on the text first: they stand even when the loop contracts no longer fit a changed body (vc/check.py fallback)
+    fn = fn_ast()
+    working_state_obligations(ctx, fn)
+    keys = sorted_set_obligations(ctx, fn)
+    query_obligations(ctx, fn)
+    c = fair_share(keys)
     eng = pyvc.Engine(ctx, c)
     eng.run()
     ctx.add(core.decided('C11/fair-share/no-call-outside-the-contract', not eng.unmodelled, repr(eng.unmodelled), kind='frame'))
